@@ -41,7 +41,7 @@ RULE = ("short generated programs (print results, sys.argv, __name__; exit via s
         "Non-trivial = trailing argument list containing an option-like item (starts with '-'); distinct by "
         "(program, arguments, option spellings).")
 FLOOR = {"quick": 12, "thorough": 200}
-BUDGET = {"quick": 55, "thorough": 600}
+BUDGET = {"quick": 40, "thorough": 600}
 CHILD_TIMEOUT = 30       # per child process
 CASE_TIMEOUT = 340       # > 10 children (thorough) x CHILD_TIMEOUT; quick runs 5
 REPLAY_TIMEOUT = 340
